@@ -1,6 +1,6 @@
 #!/usr/bin/env python3
 """Regenerates /verif/MANIFEST.json from the table below (single source of truth)."""
-import json, subprocess
+import json, os
 
 COMMON_NOTE = ("Held-on-what-was-observed only: the oracle saw the executions listed in the evidence file, nothing more. "
                "Trusted base: Go runtime/compiler, crypto/sha256, crypto/sha512, crypto/hmac, x/crypto/ripemd160, math/big, math/bits, "
@@ -13,21 +13,84 @@ CHECKS = {
          "directed hashes cover every single-bit pattern and every leading-zero length, random hashes the rest. Exploration, not proof: 2^160 hashes cannot be enumerated, "
          "but the code has no data-dependent branches beyond the bit packing that the directed cases cover.",
          "", "3 C01"),
+ "C02": ("canonical-form oracle over generated strings (valid reference checksums over all 256 version bytes x lengths 0..65 x paddings x prefixes x case renderings; Unicode confusables; Base58Check over all versions/lengths; public-key hex over every format byte)",
+         "Every string the real decoder accepts is re-encoded and compared with the input modulo the documented normalisations, and network membership is checked over all six nets; the generator builds strings that pass the checksum layer so the inner validation is what is exercised. "
+         "The version-byte x length x padding grid is enumerated completely, the rest is seeded.",
+         "The chaincfg.Register collision clause (ErrAddressCollision) is not exercised; membership is asserted over the six built-in nets.", "3 C02"),
  "C03": ("hook-observed syndrome map of the implementation's own polyMod/bech32Polymod + meet-in-the-middle enumeration of all low-weight patterns on the measured map, confirmed through the real decoders; black-box exhaustive weight 1-2 and seeded weight<=5 substitution monitors; near-miss (partial-mask) patterns",
          "The space of substitution patterns (about 1e14 per length) collapses through GF(2)-affinity of the remainder function, which the monitor validates at run time on the implementation itself, to a syndrome space that is enumerated completely (every pattern of weight <=5 on a 112-symbol window, which contains all eight standard lengths; bech32: weight <=4 on 88 symbols). "
          "The acceptance comparison, which the hook does not see, is exercised black-box with exhaustive weight-1/2 substitutions, seeded heavier ones and patterns chosen to pass weakened comparisons.",
          "Affinity of the remainder function is validated by sampling, not proven; every candidate the enumeration finds is re-decided by the real decoder before it is reported.", "3 C03"),
+ "C04": ("reference-model monitor: independent BIP32 (own secp256k1 on math/big, HMAC-SHA512) compared after every derivation step; error-clause monitor",
+         "Each derivation step of seeded and directed paths (all seed lengths 16..64, boundary indices, chains to depth 255, all nets) is compared field by field with an independent BIP32 implementation that is self-tested on the BIP's vectors; the rare leading-zero-scalar class that hid the historic bug is counted and the clause is inconclusive if too few were seen.",
+         "ErrInvalidChild / ErrUnusableSeed (probability 2^-127) cannot be reached by any constructible input.", "3 C04"),
+ "C05": ("accept-iff-reference monitor: strict reference extended-key validator vs NewKeyFromString over single-bit/byte corruptions and recomputed-checksum families; round-trip monitor over derived keys",
+         "Every generated string is classified by an independent validator (82 bytes, sha256d checksum, scalar in [1,n-1] or compressed point on the curve); the parser must accept exactly those and re-serialise them identically. All 656 single-bit flips and the boundary scalars/points are directed, the rest seeded.",
+         "", "3 C05"),
+ "C06": ("accept-iff-reference monitor for WIF strings + round-trip monitor over scalars x nets x compression flags with independent public-key computation",
+         "Validity is decided by an independent Base58Check decoder and the 37/38-byte rule; accepted strings must re-encode to themselves; for scalars incl. 1..31 leading zero bytes the decoded key, flag, network identity and public-key serialisation are compared with the reference curve arithmetic.",
+         "", "3 C06"),
+ "C07": ("reference-model monitors (own Base58/Base58Check, BIP173 reference) incl. exhaustive small strings; before/after canary over argument memory with spare capacity; Go race detector as purity probe (same argument memory handed to concurrent calls)",
+         "Byte strings of length <=2 and strings of length <=3 over alphabet plus foreign bytes are enumerated completely, the rest is seeded up to 512 bytes; acceptance is compared with independent references; side effects on argument memory are observed value-based (canary over every capacity) and value-independently (race detector).",
+         "For (fromBits,toBits) other than 8<->5 only the regrouping rule stated in the property is asserted.", "3 C07"),
+ "C08": ("panic monitor, crash-isolated child processes with RLIMIT_AS (process-fatal errors), hang watchdog with isolated confirmation, per-call heap-allocation monitor with MemProfile attribution, CPU-time growth ladders; structure-aware hostile input generators",
+         "Every parser entry point is driven with inputs that pass its outer validation layer (valid checksums solved for, valid framing) and carry degenerate inner content, one monitored call at a time in child processes, so panics, fatal errors, hangs and allocation by claimed counts are each observed and attributed to a call site.",
+         "Known finding (not alarmed): bchd's wire decoder allocates by declared counts (dependency). 'Proportional' and 'quadratic' are decided by the stated numeric bounds.", "3 C08"),
+ "C09": ("history checker against a bit-exact BIP37 model (independent MurmurHash3) after every step; sizing-limit monitor over hostile (elements, fprate)",
+         "Seeded operation histories on filters of every size class, hash count and tweak are compared byte for byte with the model after every step, and every item inserted since the last reload is required to match (own counter); MurmurHash3 is compared for every length 0..64.",
+         "Filter size 0 belongs to C08.", "3 C09"),
+ "C10": ("exact per-transaction model of MatchTxAndUpdate (result and filter bytes) + block-level sandwich oracle E <= reported <= matches(final filter) over permutations of generated spend graphs; three scanner APIs compared",
+         "The per-transaction oracle is bit exact (bloom false positives are reproduced, not excluded); the block-level oracle is sound under any false-positive rate because the lower bound uses exact sets and the upper bound the final real filter. txscript.PushedData / GetScriptClass define 'data push' and script class.",
+         "", "3 C10"),
+ "C11": ("reference-model monitor: independent BIP37 partial-merkle-tree builder and extractor vs both proof builders and the decoder; all 2^n subsets for n<=12",
+         "For n<=12 every subset is enumerated; every n<=65 with structured subsets; seeded n up to 3000; filter-induced subsets must give identical messages from both builders.",
+         "", "3 C11"),
+ "C12": ("accept-iff-reference monitor: independent extractor with exactly the statement's rejection rules vs ExtractMatches over a small-scope enumeration and mutations of honest proofs",
+         "Small scopes (count, hash list over a 3-hash alphabet, all flag strings up to 2 bytes) are enumerated by index arithmetic; honest proofs are mutated in every way the statement lists (incl. CVE-2012-2459).",
+         "", "3 C12"),
+ "C13": ("differential monitor of the four query strategies against each other and against membership, with hostile queries constructed from an independent SipHash/GCS value reference (low-32-bit collisions, neighbours, boundaries)",
+         "Agreement needs no reference (the right-hand side is the real single-item query); the reference is used to construct queries that collide with members in 32 bits once N*M >= 2^32, which random queries would not find.",
+         "", "3 C13"),
+ "C14": ("reference-model monitor: independent SipHash-2-4 + Golomb-Rice encoder vs filter bytes; serialisation round trips; hook-observed fastReduction vs math/bits.Mul64; reference block-filter entry set",
+         "Filter bytes are compared bit for bit with an independent encoder over all P in 0..32 and N*M on both sides of 2^32; the 128-bit reduction is observed directly through the verif hook on directed carry cases.",
+         "", "3 C14"),
+ "C15": ("history + executable model (reference BIP32) observing every live key after every step; reflection-read erasure monitor; Go race detector as cross-key aliasing probe",
+         "Seeded histories over a pool of keys apply every operation of the quantifier; after each step every live key's serialisation and derivation behaviour is compared with the model; zeroing is observed on the captured backing arrays; aliasing between different key objects is also observed value-independently by the race detector.",
+         "", "3 C15"),
+ "C16": ("history + model monitor: accessor call sequences on blocks/txs from four constructors vs fresh computation from the wire message (own sha256d), pointer identity, index and range clauses",
+         "Seeded blocks (0..256 txs, with token data) x four constructors x seeded accessor histories with hostile indices; every result is recomputed independently; only blocks that wire alone round-trips are in the domain.",
+         "", "3 C16"),
+ "C17": ("exact-arithmetic oracle (math/big) for rounding, symmetry, monotonicity, round trip, unit conversion and decimal text over directed boundary values and stratified random samples",
+         "The floating-point clauses are decided exactly with big.Float/big.Rat; directed values sit on every rounding boundary (k+0.5 neighbours, 2^52..2^53, powers of two and ten, the cap).",
+         "Exhaustive coverage of 2.1e15 amounts is out of reach; the check is directed + stratified sampling.", "3 C17"),
+ "C18": ("reference BIP69 comparators + permutation/multiset monitor, exhaustive over all sequences of <=6 inputs / <=4 outputs on small key alphabets with ties; seeded up to 300",
+         "The small-scope stream enumerates every ordering incl. ties in hash, index, amount and script-prefix relations; order among key-equal elements is not asserted.",
+         "", "3 C18"),
+ "C19": ("clause-by-clause oracle over every successful selection (exhaustive small scope + seeded lists) and a model-based history checker for CoinSet totals",
+         "All lists of <=3 coins over small value/confirmation alphabets with all parameter combinations are enumerated; seeded lists up to 12 coins; every tie order the unstable sort may produce is accepted.",
+         "", "3 C19"),
+ "C20": ("Go race detector over concurrent workloads (reports read from the GORACE log, harness control race required to fire) + porcupine linearizability checking of recorded histories against a bit-exact sequential BIP37 model, final filter bytes observed at quiescence; conservation monitor on add-only runs; concurrent GCS query monitor",
+         "k in {2..8} goroutines x GOMAXPROCS in {1,2,4,16} with seeded perturbation produce tens of thousands of short histories on one tiny shared filter (so every pair of operations conflicts); each history is decided by porcupine; 16-32 goroutine stress runs are decided by the race detector alone.",
+         "'All interleavings' and the static all-paths clause are out of reach: schedules are observed, not enumerated.", "3 C20"),
 }
 
 NOT_YET = "check not built yet in this revision (work in progress; will be claimed once its monitor is silent on the unchanged tree)"
 
 ALL = ["C%02d" % i for i in range(1, 21)]
 
+def implemented():
+    ids = set()
+    for f in os.listdir("/verif/harness/props"):
+        if f.startswith("c") and f[1:3].isdigit() and f.endswith(".go") and len(f) == 6:
+            ids.add("C" + f[1:3])
+    return ids
+
 def main():
     hooks_commit = "ad2749b"
+    have = implemented()
     checks = []
     for pid in ALL:
-        if pid not in CHECKS:
+        if pid not in CHECKS or pid not in have:
             continue
         tech, text, note, ref = CHECKS[pid]
         checks.append({
@@ -41,7 +104,8 @@ def main():
             "level_note": (note + " " if note else "") + COMMON_NOTE,
             "technique": "runtime monitoring: " + tech,
         })
-    na = [{"property_id": p, "reason": NOT_YET} for p in ALL if p not in CHECKS]
+    claimed = {c["property_id"] for c in checks}
+    na = [{"property_id": p, "reason": NOT_YET} for p in ALL if p not in claimed]
     m = {
         "version": 1,
         "setup_cmd": "./check --build",
